@@ -114,6 +114,53 @@ def norm_text(fmt, data):
     return data
 
 
+def open_fds_on(path):
+    """file descriptors of this process that still refer to path"""
+    real = os.path.realpath(path)
+    out = []
+    for fd in os.listdir('/proc/self/fd'):
+        try:
+            if os.path.realpath(os.readlink('/proc/self/fd/' + fd)) == real:
+                out.append(fd)
+        except OSError:
+            pass
+    return out
+
+
+def closed_and_complete(path, what):
+    """the property's last clause, observed at the moment the call returns: no descriptor of this
+    process refers to the file any more, and what is on disk now is what is on disk after every
+    pending buffer has been collected"""
+    import gc
+    bad = []
+    now = open(path, 'rb').read()
+    fds = open_fds_on(path)
+    if fds:
+        bad.append('%s returned with its output file still open (fd %s)' % (what, ','.join(fds)))
+    gc.collect()
+    later = open(path, 'rb').read()
+    if later != now:
+        bad.append('%s returned before its output file was complete (%d bytes on return, %d after collection)' % (what, len(now), len(later)))
+    return bad
+
+
+def decorate(n, rng):
+    """user data of the other formats on some instances/definitions (a netlist read from Verilog and
+    written to EDIF, etc.): the writers may read it, never change it"""
+    insts = [i for i in n.get_instances()] if n.top_instance is not None else []
+    rng.shuffle(insts)
+    for i in insts[:max(1, len(insts) // 3)]:
+        c = rng.random()
+        if c < 0.5:
+            i['EDIF.properties'] = [{'identifier': 'INIT', 'value': "4'h8"}, {'identifier': 'loc', 'value': 3}][:rng.choice([1, 2])]
+        if c > 0.25:
+            i['VERILOG.Parameters'] = dict(list({'WIDTH': '8', 'INIT': '"x"', 'MODE': '2'}.items())[:rng.choice([1, 2, 3])])
+        if rng.random() < 0.3:
+            i['EBLIF.attr'] = {'keep': 'true'}
+            i['EBLIF.param'] = {'LUT': '1001'}
+    return n
+
+
 def compose(n, fmt, path, opts):
     o = dict(opts)
     if o.get('definition_list') == ['__TOP__']:
@@ -134,14 +181,27 @@ def netlists(rng, tier, tmpdir):
             except Exception:
                 continue
             yield (name, fmt, n)
+            if fmt == 'edif':
+                yield (name + '-decorated', fmt, decorate(sdn.parse(p), rng))
+            if fmt == 'eblif':
+                # a netlist without a name is composable in this format (and only in this one)
+                n2 = sdn.parse(p)
+                n2.name = None
+                yield (name + '-unnamed', fmt, decorate(n2, rng))
     ngen = 12 if tier == 'quick' else 150
     for k in range(ngen):
-        fmt = rng.choice(['edif', 'verilog'])
+        fmt = ('edif', 'verilog', 'eblif')[k % 3] if k % 4 else rng.choice(['edif', 'verilog'])
         # EDIF needs acyclic library dependencies (the property's quantifier): one library
-        w, ops, info = netgen.build_world(rng, depth=rng.choice([1, 2, 3]), two_libs=(fmt != 'edif'))
+        w, ops, info = netgen.build_world(rng, depth=rng.choice([1, 2, 3]), two_libs=(fmt == 'verilog'))
         n = w.objs[info['netlist']]
         w.close()
-        yield ('netgen-%d' % k, fmt, n)
+        if rng.random() < 0.7:
+            decorate(n, rng)
+        label = 'netgen-%d' % k
+        if fmt == 'eblif' and k % 2 == 1:      # unnamed netlists are composable in EBLIF only
+            n.name = None
+            label += '-unnamed'
+        yield (label, fmt, n)
 
 
 def check_one(label, fmt, n, opts, tmpdir, rng):
@@ -151,7 +211,10 @@ def check_one(label, fmt, n, opts, tmpdir, rng):
     try:
         compose(n, fmt, p1, opts)
     except Exception as e:  # noqa
+        if label.startswith('netgen') and fmt == 'eblif':
+            return None, []      # the EBLIF writer does not accept every API-built netlist: not composable
         return None, ['compose raised %s: %s' % (type(e).__name__, str(e)[:120])]
+    bad += closed_and_complete(p1, 'compose(%s)' % fmt)
     size1 = os.path.getsize(p1)
     data1 = open(p1).read()
     aobjs, after = canon_ids(n)
